@@ -168,6 +168,12 @@ M("c04.toy.dsa.verify.modq", "C04", DSAPY, "v = (pow(g, u1, p) * pow(y, u2, p) %
 M("c04.toy.dsa.sign.r", "C04", DSAPY, "r = pow(g, k, p) % q  # r = (g**k mod p) mod q", "r = pow(g, k, q) % p", "K-pw|dsa.toy.sign")
 M("c04.twin.toy.ecdsa.verify", "C04", ECCPY, "return (point1 + point2).x % order == rs[0]", "v = (point2 + point1).x % order\n        return v == rs[0]", twin=True)
 
+AESNIC = "src/AESNI.c"
+M("c16.aesni.rcon9", "C16", AESNIC, "    case 9:  y = _mm_aeskeygenassist_si128(x, 0x1b); break;", "    case 9:  y = _mm_aeskeygenassist_si128(x, 0x1c); break;", "|c|aes.")
+M("c16.aesni.lane5", "C16", AESNIC, "            data[5] = _mm_aesenc_si128(data[5], r[j]);\n            data[6] = _mm_aesenc_si128(data[6], r[j]);\n            data[7] = _mm_aesenc_si128(data[7], r[j]);\n        }\n    \n        for (; j<rounds; j++) {",
+  "            data[5] = _mm_aesenc_si128(data[4], r[j]);\n            data[6] = _mm_aesenc_si128(data[6], r[j]);\n            data[7] = _mm_aesenc_si128(data[7], r[j]);\n        }\n    \n        for (; j<rounds; j++) {", "K-pw|c|aes.siblings")
+M("c02.aesni.aes256.subword", "C02", AESNIC, "            if ((i % Nk == 4) && (Nk == 8)) {  /* AES-256 only */", "            if ((i % Nk == 4) && (Nk >= 6)) {  /* AES-256 only */", "|c|aes.")
+M("c16.aesni.imc", "C16", AESNIC, "        *drk++ = _mm_aesimc_si128(*erk--);", "        *drk++ = *erk--;", "|c|aes.")
 GHP, GHC = "src/ghash_portable.c", "src/ghash_clmul.c"
 M("c01.ghash.portable.poly", "C01", GHP, "0xE100000000000000ULL", "0xE000000000000000ULL", "K-pw|c|ghash.portable")
 M("c16.ghash.portable.shift", "C16", GHP, "(*next)[1] = (*cur)[1]>>1 | (*cur)[0]<<63;", "(*next)[1] = (*cur)[1]>>1 | (*cur)[0]<<62;", "K-pw|c|ghash.portable")
